@@ -169,6 +169,8 @@ func rulesC01(c *Ctx) {
 						nLoops++
 					}
 				}
+				// ... or the standard element-wise helpers (each counts as the loop it contains)
+				nLoops += len(findCalls(fn, "slices.EqualFunc", "slices.Equal", "slices.CompareFunc", "slices.Compare"))
 				c.Check(nLoops >= 2, "C01.cache", "isEqual:element-wise", c.P.Pos(fn.Pos()), "slices are compared element-wise in loops", "isEqual no longer compares transactions/misbehaviour element-wise")
 			}
 			// result fields (set by setResults) and the working tree/hash are not proposal inputs
@@ -279,7 +281,7 @@ func rulesC01(c *Ctx) {
 	// ---- (e) lexicographic dispatch
 	c.WhoMayStore(ix, "C01.dispatch", pkABCI+".abciMux.appsByLexOrder", []string{pkABCI + ".(*abciMux).rebuildAppLexOrdering"}, "dispatch order list has a single builder")
 	if fn := c.needFn("C01.dispatch", pkABCI+".(*abciMux).rebuildAppLexOrdering"); fn != nil {
-		hasSort := len(findCalls(fn, "sort.Strings", "slices.Sort", "sort.Slice")) > 0
+		hasSort := len(findCalls(fn, "sort.Strings", "slices.Sort", "sort.Slice", "slices.Sorted", "slices.SortFunc", "slices.SortStableFunc", "sort.Sort", "sort.Stable", "sort.SliceStable")) > 0
 		c.Check(hasSort, "C01.dispatch", "rebuildAppLexOrdering:sorted", c.P.Pos(fn.Pos()), "application names are sorted before the dispatch list is built", "the application dispatch list is no longer built from sorted names")
 	}
 	for _, m := range []string{"InitChain", "BeginBlock", "EndBlock"} {
